@@ -25,7 +25,7 @@
 (*         (1e-5 full scale^2), pk peeked decoder control state after the call  *)
 (***************************************************************************)
 EXTENDS Link, Json, IOUtils, TLC
-CONSTANTS M1, M2, M2After, M2Late, M2LateAfter, M3Num, M3Den, M4, M5, M5U, M5After, M5Slack, M6, M6After,      \* calibrated thresholds (centi-dB; M3 as a ratio of energies), R3
+CONSTANTS M1, M2, M2After, M2Late, M2LateAfter, M3Num, M3Den, M4, M5, M5U, M5After, M5Slack, M6, M6After, M7, M7After,      \* calibrated thresholds (centi-dB; M3 as a ratio of energies), R3
           LevelFloorNeg,                  \* level clauses only above this level (negated centi-dB), R2
           MinFecFrames,                   \* M3 is judged per stream once that many frames were recovered
           CheckM3, CheckM4                \* clauses that calibration left in force
@@ -44,7 +44,8 @@ NoW == [on |-> FALSE]
 \* often the clause applied) - printed per stream for the calibration table, not judged
 NoObs == -100000
 NoAcc == [sf |-> 0, sp |-> 0, nf |-> 0, drift |-> 0, o1 |-> NoObs, o2 |-> NoObs, o2b |-> NoObs, o2c |-> NoObs, o4 |-> NoObs, n1 |-> 0, n2 |-> 0, n4 |-> 0,
-          o5 |-> NoObs, o5b |-> NoObs, n5 |-> 0, sf3 |-> 0, sp3 |-> 0, nf3 |-> 0, qpos |-> 0, o6 |-> NoObs, n6 |-> 0, cng |-> <<>>, single |-> TRUE, n5b |-> 0]
+          o5 |-> NoObs, o5b |-> NoObs, n5 |-> 0, sf3 |-> 0, sp3 |-> 0, nf3 |-> 0, qpos |-> 0, o6 |-> NoObs, n6 |-> 0, cng |-> <<>>, single |-> TRUE, n5b |-> 0,
+          o7 |-> NoObs, n7 |-> 0, o7b |-> NoObs, n7b |-> 0]
 BigErr == 100000
 Mn(a, b) == IF a < b THEN a ELSE b
 Mx(a, b) == IF a > b THEN a ELSE b
@@ -134,6 +135,16 @@ Level == LevelOf(w.lv5)
 \* (measured +20.6 dB) and the MDCT layer's noise floor estimate is the signal: they serve M3 / M5 / M6 only (R2)
 Stationary == cf.sig <= 10
 
+\* Depth of the MDCT layer's concealment floor (M7).  Under sustained loss the MDCT layer's noise-based concealment decays
+\* to the decoder's BACKGROUND-NOISE estimate, which follows the quietest level the stream has had and may rise only slowly
+\* (about 2.4 dB per second of received audio).  On the families with a quiet start (15 / 16: 300 ms of faint noise around
+\* -60 dBFS, then a STATIONARY loud signal - so the pre-loss level is well defined and the floor is 40+ dB below it) the
+\* clause "falls well below the pre-loss level under sustained loss" is asserted with a depth: after M7After units of ANY
+\* sustained loss - whatever was lost or received before it in this receiver run, in particular after an EARLIER long
+\* outage followed by a stretch of received packets - the concealed level is at least M7 below the pre-loss level.
+\* MDCT-only concealment only (R2).  w.prevrun: the longest earlier loss run of this receiver run (units).
+QuietStart == cf.sig \in {15, 16}
+
 \* R2 sub-domains of the two clauses that hold only there (calibration table in spec/cfg/LinkTrace.cfg):
 \* clean talk spurts separated by exact digital silence (family 11: harmonic, modulated; family 14: unvoiced, fricative-
 \* like noise bursts, partly after a voiced start; no noise between the spurts, so the
@@ -205,6 +216,8 @@ RxWhy(e) ==
        THEN <<"concealment does not decay under sustained loss (late)", e.lv, Level, w.run>>
   ELSE IF conceals /\ Level >= LevelFloor /\ w.run >= M5After /\ CleanSpeechLayer /\ e.lv > M5Target /\ e.lv > LevelFloor - M5Of
        THEN <<"speech-layer concealment of a clean signal does not decay under sustained loss", e.lv, Level, CngRef, w.run>>
+  ELSE IF conceals /\ QuietStart /\ Level >= LevelFloor /\ w.run >= M7After /\ D!PlcMode(w.d) = MODE_CELT /\ e.lv > Level - M7 /\ e.lv > LevelFloor - M7
+       THEN <<"MDCT concealment does not fall well below the pre-loss level under sustained loss (stream with a quiet start)", e.lv, Level, w.run, w.prevrun>>
   ELSE <<>>
 
 TWhy(e) ==
@@ -249,7 +262,7 @@ Step(e) ==
                                          !.cng = Append(acc.cng, ref),
                                          !.single = acc.single /\ Parse(p, FALSE).count = 1]
     [] e.k = "W" ->
-         /\ w' = [on |-> TRUE, pos |-> e.start * cf.U, run |-> 0, lv5 |-> NoLevels, since |-> 0, lost |-> FALSE, nlost |-> 0, paused |-> FALSE, lastgood |-> e.start - 1, best |-> BigErr, tailu |-> 0, d |-> DecOfPeek(e.pk)]
+         /\ w' = [on |-> TRUE, pos |-> e.start * cf.U, run |-> 0, lv5 |-> NoLevels, since |-> 0, lost |-> FALSE, nlost |-> 0, paused |-> FALSE, lastgood |-> e.start - 1, best |-> BigErr, tailu |-> 0, prevrun |-> 0, d |-> DecOfPeek(e.pk)]
          /\ l' = l + 1 /\ UNCHANGED <<cf, acc>>
     [] e.k = "rx" /\ e.t = "T" ->
          IF ~w.on THEN Reject(<<"harness: no receiver run">>)
@@ -259,6 +272,7 @@ Step(e) ==
                                      !.lv5 = <<e.tl, e.tl, e.tl, e.tl, e.tl>>, !.d = DecOfPeek(e.pk),
                                      !.best = IF w.lost /\ e.tl >= LevelFloor THEN Mn(w.best, e.e - e.tl) ELSE w.best,
                                      !.tailu = CapU(w.tailu + e.u),
+                                     !.prevrun = Mx(w.prevrun, w.run),
                                      !.lastgood = e.i + e.n - 1,
                                      !.paused = WorstRel(e, 1, w.since, 0, w.paused)[2]]
                    /\ acc' = IF ConvDomain /\ WorstRel(e, 1, w.since, 80, w.paused)[1] > NoObs
@@ -272,6 +286,8 @@ Step(e) ==
                   c1 == ~good /\ ~FecRecovers(e) /\ Level >= LevelFloor
                   c2 == c1 /\ Stationary /\ w.run >= 160 /\ D!PlcMode(w.d) = MODE_CELT
                   c5 == c1 /\ CleanSpeechLayer /\ w.run >= 160
+                  c7 == c1 /\ QuietStart /\ w.run >= 400 /\ D!PlcMode(w.d) = MODE_CELT
+                  c7b == c7 /\ w.prevrun >= 400
                   r3 == IsolatedFec(e) /\ acc.nf3 < 4000
                   units == e.r \div Qo IN
               IF why # <<>> THEN Reject(why)
@@ -284,6 +300,7 @@ Step(e) ==
                                      !.best = IF good THEN w.best ELSE BigErr,
                                      !.paused = IF good THEN (w.paused \/ (w.lost /\ e.tl <= -9000)) ELSE FALSE,
                                      !.tailu = IF good THEN w.tailu ELSE 0,
+                                     !.prevrun = IF good THEN Mx(w.prevrun, w.run) ELSE w.prevrun,
                                      !.lv5 = IF good THEN PushLevel(w.lv5, e.lv) ELSE w.lv5,
                                      !.d = DecOfPeek(e.pk)]
                    /\ acc' = [acc EXCEPT !.sf = IF rec THEN acc.sf + e.fe ELSE acc.sf,
@@ -302,7 +319,11 @@ Step(e) ==
                                          !.n5 = IF c5 /\ CngRef + M5Slack <= Level - M5Of /\ acc.n5 < 1000000 THEN acc.n5 + 1 ELSE acc.n5,
                                          !.sf3 = IF r3 THEN acc.sf3 + e.fe ELSE acc.sf3,
                                          !.sp3 = IF r3 THEN acc.sp3 + e.pe ELSE acc.sp3,
-                                         !.nf3 = IF r3 THEN acc.nf3 + 1 ELSE acc.nf3]
+                                         !.nf3 = IF r3 THEN acc.nf3 + 1 ELSE acc.nf3,
+                                         !.o7 = IF c7 THEN Mx(acc.o7, e.lv - Mx(Level, LevelFloor)) ELSE acc.o7,
+                                         !.n7 = IF c7 /\ acc.n7 < 1000000 THEN acc.n7 + 1 ELSE acc.n7,
+                                         !.o7b = IF c7b THEN Mx(acc.o7b, e.lv - Mx(Level, LevelFloor)) ELSE acc.o7b,
+                                         !.n7b = IF c7b /\ acc.n7b < 1000000 THEN acc.n7b + 1 ELSE acc.n7b]
                    /\ (IF Conforms(e) THEN TRUE ELSE Drift(<<"decoder control state", e.t, e.pk>>))
                    /\ l' = l + 1 /\ UNCHANGED cf
     [] e.k = "endW" ->
@@ -319,7 +340,7 @@ Step(e) ==
          \* (judged on the StrongFecStream sub-domain, isolated losses only)
          IF CheckM3 /\ acc.nf3 >= MinFecFrames /\ acc.sf3 > (acc.sp3 \div M3Den) * M3Num
          THEN Reject(<<"FEC is not far more accurate than concealment", acc.sf3, acc.sp3, acc.nf3>>)
-         ELSE /\ PrintT("OBS " \o ToString(<<cf.x, acc.nf, acc.sf, acc.sp, acc.o1, acc.n1, acc.o2, acc.n2, acc.o4, acc.n4, acc.o2b, acc.o2c, acc.o5, acc.o5b, acc.n5, acc.nf3, acc.sf3, acc.sp3, acc.o6, acc.n6, acc.n5b>>))
+         ELSE /\ PrintT("OBS " \o ToString(<<cf.x, acc.nf, acc.sf, acc.sp, acc.o1, acc.n1, acc.o2, acc.n2, acc.o4, acc.n4, acc.o2b, acc.o2c, acc.o5, acc.o5b, acc.n5, acc.nf3, acc.sf3, acc.sp3, acc.o6, acc.n6, acc.n5b, acc.o7, acc.n7, acc.o7b, acc.n7b>>))
               /\ cf' = NoCfg /\ w' = NoW /\ acc' = [NoAcc EXCEPT !.drift = acc.drift] /\ l' = l + 1
     [] OTHER -> Reject(<<"unexpected event", e.k>>)       \* Hang, Canary, bad
 
